@@ -101,8 +101,8 @@ mutual
 /-- `reflect.deepValueEqual`: type identity first, then by kind.  Func: equal only if both nil. -/
 def deepEq : Val → Val → Bool
   | .bool t1 a, .bool t2 b => t1 == t2 && a == b
-  | .int t1 _ a, .int t2 _ b => t1 == t2 && a == b
-  | .flt t1 w a _, .flt t2 _ b _ => t1 == t2 && fltEq w a b
+  | .int t1 s a, .int t2 s' b => t1 == t2 && s == s' && a == b
+  | .flt t1 w a _, .flt t2 w' b _ => t1 == t2 && w == w' && fltEq w a b
   | .str t1 a _ _, .str t2 b _ _ => t1 == t2 && a == b
   | .strct t1 f, .strct t2 g => t1 == t2 && deepEqs f g
   | .arr t1 f, .arr t2 g => t1 == t2 && deepEqs f g
